@@ -154,6 +154,15 @@ def run_shard(shard) -> Result:
                     res.violation(kind + tag, {'data': data.tolist(), 'T': T, 'temps_before': temps[:ti]}, detail)
             if not np.array_equal(np.asarray(vol.data), data):
                 res.violation('free-energy-query-modifies-the-density', {'data': data.tolist(), 'T': temps[0], 'temps_before': temps}, '')
+            if si == 0:
+                # the density of a Volume is public data: after it is edited, queries must reflect the new content
+                data2 = np.array(data, dtype=float)
+                data2.flat[0] += 3
+                vol.data = data2.copy()
+                viols, key = evaluate(data2, temps[0], graph=False, vol=vol)
+                res.evals += 1
+                for kind, detail in viols:
+                    res.violation(kind + '-after-the-density-was-edited', {'data': data.tolist(), 'T': temps[0], 'edited': True}, detail)
     res.sample({'density': data.tolist(), 'temperature': T})
     return res
 
@@ -163,6 +172,11 @@ def replay(case):
 
     data = np.array(case['data'])
     vol = Volume(data=data.copy(), lattice=lattice())
+    if case.get('edited'):
+        evaluate(data, case['T'], graph=False, vol=vol)
+        data = np.array(data, dtype=float)
+        data.flat[0] += 3
+        vol.data = data.copy()
     for T in case.get('temps_before', []):
         evaluate(data, T, graph=False, vol=vol)
     viols, _ = evaluate(data, case['T'], vol=vol)
